@@ -13,7 +13,7 @@ from checks import scope_common
 
 
 def run(out, tier, seed):
-    scope_common.run_gen_check(out, tier, seed, "C05", ["clause_guard"])
+    scope_common.run_gen_check(out, tier, seed, "C05", [])
     out.cov["exhaustive"] = True
     out.cov["rule"] = ("all programs GleamGen derives with the BFS budget: b1 = every production once in every slot under the base headers "
                        "(no import, m2 plain / `as q` / .{c} / .{A}, sub/m2), b1h = the import-sensitive productions (references to imported names, "
